@@ -70,6 +70,10 @@ fn announced(env: &Env, hub: &String) -> Option<(String, Message)> {
 #[kani::unwind(164)]
 #[kani::stub(soroban_sdk::token::xc_TokenClient_transfer, spec_transfer)]
 #[kani::stub(soroban_sdk::token::xc_TokenClient_burn, spec_burn)]
+#[kani::stub(soroban_sdk::token::xc_TokenClient_transfer_from, spec_transfer_from)]
+#[kani::stub(soroban_sdk::token::xc_TokenClient_burn_from, spec_burn_from)]
+#[kani::stub(soroban_sdk::token::xc_StellarAssetClient_mint, spec_mint)]
+#[kani::stub(soroban_sdk::token::xc_TokenClient_balance, spec_balance)]
 #[kani::stub(crate::types::HubMessage::abi_encode, stub_abi_encode)]
 #[kani::stub(axelar_gas_service::interface::xc_AxelarGasServiceClient_pay_gas, rec_pay_gas)]
 #[kani::stub(axelar_gateway::messaging_interface::xc_AxelarGatewayMessagingClient_call_contract, rec_call_contract)]
@@ -222,4 +226,33 @@ fn c18_deploy_remote_canonical_token() {
     let o = c18_deploy_remote(true);
     kani::cover!(o == 1, "VERIF:reach:remote deployment announced");
     kani::cover!(o == 0, "VERIF:reach:remote deployment refused");
+}
+
+// HARNESS props=C11,C06 tier=quick profile=its shape="configuration and registry queries on an arbitrary state"
+#[kani::proof]
+#[kani::unwind(164)]
+fn c11_queries() {
+    let c = setup();
+    let env = c.env.clone();
+    let id = any::b32(1);
+    let addr = any::address(7);
+    let ty = any_manager_type();
+    seed_token(&id, true, &addr, ty);
+    let w0 = model::storage_writes();
+    let (ta, tt, cn, hub, gs, gwa, wh, own) = model::with_contract(&its(), || {
+        (
+            InterchainTokenService::token_address(&env, id.clone()),
+            InterchainTokenService::token_manager_type(&env, id.clone()),
+            InterchainTokenService::chain_name(&env),
+            InterchainTokenService::its_hub_address(&env),
+            InterchainTokenService::gas_service(&env),
+            InterchainTokenService::gateway(&env),
+            InterchainTokenService::interchain_token_wasm_hash(&env),
+            InterchainTokenService::owner(&env),
+        )
+    });
+    kani::assert(ta == addr && tt == ty, "VERIF:C11:registry queries report exactly the registered token address and manager type");
+    kani::assert(cn == c.chain_name && hub == c.hub_address && gs == gas_addr() && gwa == gateway_addr() && wh == c.wasm && own == c.owner, "VERIF:C06:construction stores owner, gateway, gas service, hub address, chain name and token code exactly as given");
+    kani::assert(model::storage_writes() == w0, "VERIF:C11:queries change nothing");
+    kani::cover!(true, "VERIF:reach:queried");
 }
